@@ -190,7 +190,12 @@ def s5(ctx, rep):
         isinstance(idx[0].ast.value.slice, ast.Name) and len(rt) == 1 and U(rt[0].elts[1]) == "metric_mode"
     mix = U(idx[0].ast.value.slice) if ok else "?"
     mi = [d for d in local_defs(mm, mix) if not isinstance(d, tuple)]
-    ok = ok and len(mi) == 1 and U(mi[0]).replace(" ", "") == f"metric_names.index({mname})ifisinstance(metric,str)elsemetric"
+    ok = ok and len(mi) == 1 and isinstance(mi[0], ast.IfExp)
+    if ok:
+        t, arm_t, arm_f = mi[0].test, mi[0].body, mi[0].orelse
+        while isinstance(t, ast.UnaryOp) and isinstance(t.op, ast.Not):
+            t, arm_t, arm_f = t.operand, arm_f, arm_t
+        ok = U(t).replace(" ", "") == "isinstance(metric,str)" and U(arm_t).replace(" ", "") == f"metric_names.index({mname})" and U(arm_f) == "metric"
     nm = [U(d) for d in local_defs(mm, mname) if not isinstance(d, tuple)]
     ok = ok and set(nm) == {"metric", "metric_names[metric]"}
     rep.put(ok, "S5", "agreement", "metric_name_mode: name and mode are taken at the same index of the two lists", mm, None, "",
